@@ -178,7 +178,7 @@ def build_sched(spec, ctx, parallel):
     for i, p in enumerate(spec['procs']):
         params = {'name': p['name'], 'run_id': ctx.run_id, 'ts': list(p['ts']),
                   'ts_mode': p['ts_mode'], 'cond': p['cond'], 'meta': True,
-                  'salt': i + 1, 'record': False}
+                  'salt': i + 1, 'record': False, 'setlast': True}
         if parallel and p['name'] in spec['parallel']:
             params['_parallel'] = True
         processes[p['name']] = kit.RecProcess(params)
